@@ -1,4 +1,5 @@
 import MgpuProofs.C13DrvSync
+import MgpuProofs.C13DrvKey
 /-!
 # C13 — driver side: every launch points at an upload of its code (properties)
 
@@ -147,15 +148,43 @@ theorem code_upload_same_queue_full_refuted : ¬ code_upload_same_queue_full := 
   revert h2
   decide
 
-/-- FALSE: the address a launch points at is a code-sized buffer of the launching process -/
+/-- The address a launch points at is a code-sized buffer of the launching process — for every history of the
+REPAIRED driver (`runP`: cache key = (process, code object)), with no hypothesis on who launches what. `WF` /
+`Consistent` are stated on the history as the driver sees it (tags = keys): queue indices exist, and one
+(process, pointer) names one object. -/
 def code_address_same_process_full : Prop :=
+  ∀ ops, WF (keyed ops).2 → Consistent (keyed ops).2 → ∀ qu ∈ (runP ops).queues, ∀ co len ko ka dp,
+    Cmd.launch co len ko ka dp ∈ qu.cmds →
+      ∃ a ∈ (runP ops).allocs, a.addr = ko ∧ a.size = len ∧ a.pid = qu.pid
+
+/-- … holds: `OneProcessPerObject` is true of every keyed history (`keyed_one_process`, the pairing `ckey` is
+injective), so `same_process_partial` applies. -/
+theorem code_address_same_process_full_holds : code_address_same_process_full := by
+  intro ops hwf hc qu hq co len ko ka dp hm
+  rw [keyed_run] at hq ⊢
+  exact same_process_partial (keyed ops).2 hwf hc (keyed_one_process ops hwf) qu hq co len ko ka dp hm
+
+/-- the kind of history on which the driver used to hand process 2 the address of process 1 (one object of 128 bytes
+launched from two processes, the allocator answering 16384 in both address spaces): now both processes upload their
+own copy — two code-sized allocations, one per process, two cache entries -/
+example :
+    let ops : List Op := [.newQueue 1, .newQueue 2, .launch 0 1 ⟨7, 128, 16, 0⟩ [16384, 20480, 24576],
+                          .launch 1 1 ⟨7, 128, 16, 0⟩ [16384, 20480, 24576]]
+    WF (keyed ops).2 ∧ Consistent (keyed ops).2 ∧
+    (runP ops).allocs.filter (·.size = 128) = [⟨1, 1, 16384, 128⟩, ⟨2, 1, 16384, 128⟩] ∧
+    (runP ops).cache = [(ckey 1 7, 16384), (ckey 2 7, 16384)] ∧
+    (runP ops).queues.map (fun q => (q.pid, q.cmds.head?)) =
+      [(1, some (.copyCode 16384 (ckey 1 7) 128)), (2, some (.copyCode 16384 (ckey 2 7) 128))] := by decide
+
+/-- the same statement about the driver BEFORE the repair (`run`: cache keyed by the object pointer only) -/
+def code_address_same_process_before_fix : Prop :=
   ∀ ops, WF ops → Consistent ops → ∀ qu ∈ (run ops).queues, ∀ co len ko ka dp,
     Cmd.launch co len ko ka dp ∈ qu.cmds →
       ∃ a ∈ (run ops).allocs, a.addr = ko ∧ a.size = len ∧ a.pid = qu.pid
 
-/-- The cache is keyed by the object only: a second process is handed the first process's address
+/-- The cache was keyed by the object only: a second process was handed the first process's address
 (here 16384, which in its own address space is its kernarg buffer). -/
-theorem code_address_same_process_full_refuted : ¬ code_address_same_process_full := by
+theorem code_address_same_process_before_fix_refuted : ¬ code_address_same_process_before_fix := by
   intro h
   have h1 := h sameProcessWitness (by decide) (by decide)
     ⟨2, [.copyArgs 16384 16, .copyPacket 20480, .launch 7 64 16384 16384 20480]⟩ (by decide)
